@@ -1117,7 +1117,15 @@ def gen_c13(rng, size=50):
     price = rng.choice(["walk", "walk", "walk", "ints", "jumpy", "repeat", "big", "small", None])
     stream, smeta = gen_stream_for(rng, n, base_tf if (shared_tf or cfg["tf"] or cfg["life"] is not None or any(m.get("tf") for m in members)) else None, True, price_style=price,
                                    ts_style=rng.choice(["regular", "regular", "gaps"]))
-    (init, chunks), shape = gen.gen_schedule(rng, n)
+    resent = False
+    if rng.random() < 0.2 and n >= 4:
+        # a live feed that RE-SENDS bars (same stamp, same values), one candle at a time: a legal stream (stamps do not decrease); what the
+        # library makes of the repeat on each manager must not depend on which other members exist
+        for i in sorted(rng.sample(range(1, n), min(n - 1, rng.randint(1, 4))), reverse=True):
+            stream.insert(i + 1, stream[i])
+        n = len(stream)
+        resent = True
+    (init, chunks), shape = gen.gen_schedule(rng, n, shape=rng.choice(["empty1", "one1", "singles"]) if resent else None)
     steps = 1 + len(chunks)
     ops = []
     for _ in range(rng.choice([1, 1, 2, 3])):
@@ -1141,7 +1149,7 @@ def gen_c13(rng, size=50):
     if rng.random() < 0.3:
         scn["enc"] = rng.choice(["dict", "list_ts_first", "list_ts_last", "dict_iso"])   # the same raw rows go to every manager
     meta = {"flavour": flavour, "price": smeta["price"], "schedule": shape, "members": len(members), "shared_tf": bool(shared_tf),
-            "hx_tf": bool(cfg["tf"]), "ha": cfg["ha"], "observed": spec_label(members[0])}
+            "hx_tf": bool(cfg["tf"]), "ha": cfg["ha"], "observed": spec_label(members[0]), "resent_bars": resent}
     for _, op, _t in clean:
         meta[f"op:{op}"] = True
     return scn, meta
